@@ -9,10 +9,10 @@ from vf.harness import Check
 from vf.gen.util import weighted
 from vf.gen import lens as GL
 from vf.gen.build import build, used_optic
-from vf.gen.edit import edit_strategy, apply_edit
+from vf.gen.edit import edit_strategy, apply_edit, maybe_reload
 
 LAUNCH = GL.Profile(max_surfs=6, shapes=['standard'], allow_vignetting=True, keep_edges=True, rho_min=1.5,
-                    steep_prob=0.1, max_field_deg=25.0, negative_fields=True, unsorted_fields=True)
+                    steep_prob=0.1, max_field_deg=25.0, negative_fields=True, unsorted_fields=True, object_medium=True)
 
 DISTS = ['line_x', 'line_y', 'positive_line_x', 'positive_line_y', 'random', 'uniform', 'hexapolar', 'cross', 'ring',
          'gq', 'gq_sym']
@@ -133,6 +133,7 @@ class C03(Check):
         if valid and edit:
             # history on one Optic: launch, edit through the public setters, launch again; the pupil the rays are aimed
             # at is the pupil of the *edited* prescription
+            o = maybe_reload(o, edit)
             v2 = apply_edit(o, v, edit)
             if v2 is not None:
                 out.cls('relaunched_after_' + edit['kind'] + '_edit')
